@@ -40,7 +40,7 @@ def check(ctx):
         for callee in cg.get(q, ()):
             f = M.funcs.get(callee)
             if f is not None and f.cls is not None and f.cls.name in ('CSVDailyBarDataSource', 'BacktestDataHandler') and not f.name.startswith('__'):
-                if f.name.startswith('_') and f.cls.name == 'CSVDailyBarDataSource' and M.funcs[q].cls is f.cls:
+                if f.name.startswith('_') and M.funcs[q].cls is f.cls:
                     continue
                 ctx.require(f.name in allowed, 'C07.S1', 'market data enters the run only through the latest-price getters (%s -> %s)' % (q, callee),
                             M.funcs[q].site(), key='C07.S1|getter|%s' % callee)
